@@ -63,8 +63,14 @@ fn synthetic(bad: &mut Vec<(String, String)>, keys: &mut std::collections::HashS
     codes.push(0x80);
     for signo in 1..=64 {
         for code in codes.iter().cloned() {
-            let pid = 0x1234_0000 + signo * 7 + (code & 0xff);
-            let uid = 0x0bad_0000u32 + (code as u32 & 0xfff);
+          // besides an arbitrary sender also the legitimate zero values (e.g. root outside the pid namespace)
+          for variant in 0..4 {
+            let (pid, uid) = match variant {
+                0 => (0x1234_0000 + signo * 7 + (code & 0xff), 0x0bad_0000u32 + (code as u32 & 0xfff)),
+                1 => (0, 0),
+                2 => (0, 1000),
+                _ => (4321, 0),
+            };
             let raw = RawInfo { si_signo: signo, si_errno: 0x5a5a, si_code: code, _pad: 0x6b6b6b6b, pid, uid, rest: [0xA5; 104] };
             let info: siginfo_t = unsafe { std::mem::transmute(raw) };
             let o = unsafe { Origin::extract(&info) };
@@ -87,7 +93,8 @@ fn synthetic(bad: &mut Vec<(String, String)>, keys: &mut std::collections::HashS
                 (Some(p), false) => bad.push((format!("synthetic-process-reported-code{}", code), format!("{}: process {:?} reported although the kernel supplies none for this code", label, p))),
                 (None, true) => bad.push((format!("synthetic-process-missing-code{}", code), format!("{}: no process reported although the kernel supplies one", label))),
             }
-            keys.insert(format!("syn:{}:{:?}", if signo == libc::SIGCHLD { "chld" } else { "other" }, (code, cause)));
+            keys.insert(format!("syn:{}:{:?}:{}", if signo == libc::SIGCHLD { "chld" } else { "other" }, (code, cause), variant));
+          }
         }
     }
     n
